@@ -34,7 +34,7 @@ def run(ctx):
     M = "sta_rs::Message"
     itag = fidx(ctx, M, "tag")
     # ---- R1 bucket key ------------------------------------------------------------------------------------
-    ent = [e for e in Q.calls(eng, "HashMap::<K, V, S, A>::entry")]
+    ent = [e for e in Q.calls(eng, "HashMap::<K, V, S, A>::entry")] + [e for e in Q.calls(eng, "BTreeMap::<K, V, A>::entry")]
     okk = len(ent) == 1
     det = ""
     if okk:
@@ -43,6 +43,9 @@ def run(ctx):
         fa = Q.find_all(key, lambda t: t.op == "fmtarg")
         okk = ps == {"all_messages.*.%d" % itag} and key.op == "formatted" and len(fa) == 1 and fa[0].args[0] == "new_debug" and \
             Q.path_of(fa[0].args[1]) == "all_messages.*.%d" % itag
+        if not okk:
+            # the tag itself (its bytes / a borrow of the whole vector) is an injective key too
+            okk = ps == {"all_messages.*.%d" % itag} and Q.path_of(key) == "all_messages.*.%d" % itag
         det = "key %s depends on %s" % (S(key, 4), sorted(ps))
     ctx.add("C18.R1", AS + "::collect_messages#bucket-key-is-tag", okk,
             "the bucket key must be the Debug rendering of the whole tag and depend on nothing else: %s" % det,
@@ -51,16 +54,17 @@ def run(ctx):
 
     # ---- R2 every report stored once ----------------------------------------------------------------------
     ins = [e for e in Q.calls(eng, "VacantEntry") if "insert" in e["callee"]]
-    psh = [e for e in Q.calls(eng, "::push") if "collect_messages" in e["fn"]]
-    eor = [e for e in Q.calls(eng, "Entry::") if e.get("model") == "m_entry_or" and "collect_messages" in e["fn"]]
-    nxt = [e for e in Q.calls(eng, "Iterator") if "collect_messages" in e["fn"] and (e.get("dname") or "").endswith("Iterator::next")]
+    psh = [e for e in Q.calls(eng, "::push") if "collect_messages" in e.get("home_fn", e["fn"])]
+    eor = [e for e in Q.calls(eng, "Entry::") if e.get("model") == "m_entry_or" and "collect_messages" in e.get("home_fn", e["fn"])]
+    nxt = [e for e in Q.calls(eng, "Iterator") if "collect_messages" in e.get("home_fn", e["fn"]) and (e.get("dname") or "").endswith("Iterator::next")]
     whole = len(nxt) == 1 and Q.variant(nxt[0]["result"], 1) is not None and Q.path_of(Q.variant(nxt[0]["result"], 1)[2][0]) == "all_messages.*" and \
         not Q.contains(nxt[0]["argv"][0], lambda t: t.op in ("adapted", "filtered"))
     ok2 = False
     det = "entry/insert/push/or_default calls: %d/%d/%d/%d" % (len(ent), len(ins), len(psh), len(eor))
     def into_bucket(e):
         tgt = e["args"][0]
-        return tgt.op == "ref" and any(isinstance(p, tuple) and p[0] == "mapval" and p[1] is ent[0]["argv"][1] for p in tgt.args[1])
+        return tgt.op == "ref" and any(isinstance(p, tuple) and p[0] == "mapval" and (p[1] is ent[0]["argv"][1] or p[1] is ent[0]["args"][1])
+                                       for p in tgt.args[1])
     if len(ent) == 1 and len(ins) == 1 and len(psh) == 1:
         # idiom (a): match on the entry, vacant arm inserts a fresh bucket with the report, occupied arm pushes it
         en = ent[0]["result"]
@@ -91,8 +95,8 @@ def run(ctx):
     # the surviving buckets: collect_messages(..).into_iter().filter(pred).collect()  or  buckets.retain(pred)
     fm = [e for e in Q.calls(eng, AS + "::filter_messages")]
     surv = fm[0]["result"] if len(fm) == 1 else None
-    fl = [e for e in Q.calls(eng, "Iterator::filter") if "filter_messages" in e["fn"]] + \
-         [e for e in Q.calls(eng, "Vec::<T, A>::retain") if "filter_messages" in e["fn"]]
+    fl = [e for e in Q.calls(eng, "Iterator::filter") if "filter_messages" in e.get("home_fn", e["fn"])] + \
+         [e for e in Q.calls(eng, "Vec::<T, A>::retain") if "filter_messages" in e.get("home_fn", e["fn"])]
     ok3 = False
     det = "no filter"
     core = surv
@@ -183,8 +187,8 @@ def run(ctx):
     ctx.floor("C18.R5", 1)
 
     # ---- R6 key derivation ------------------------------------------------------------------------------------------------
-    dk = [e for e in Q.calls(eng, "sta_rs::derive_ske_key") if "key_recover" in e["fn"]]
-    sr = [e for e in Q.calls(eng, "sta_rs::share_recover") if "key_recover" in e["fn"]]
+    dk = [e for e in Q.calls(eng, "sta_rs::derive_ske_key") if ("key_recover" in e.get("home_fn", e["fn"]) or "key_recover" in e["frame"])]
+    sr = [e for e in Q.calls(eng, "sta_rs::share_recover") if ("key_recover" in e.get("home_fn", e["fn"]) or "key_recover" in e["frame"])]
     ok6 = len(dk) == 1 and len(sr) == 1
     if ok6:
         com = ok_variant(sr[0]["result"], 0)
@@ -208,7 +212,7 @@ def run(ctx):
     ctx.floor("C18.R6", 6)
 
     # ---- R7 equality check before output ------------------------------------------------------------------------------------
-    div = [e for e in Q.calls(eng, None) if e["diverges"] and e["fn"].endswith("recover_measurements")]
+    div = [e for e in Q.calls(eng, None) if e["diverges"] and e.get("home_fn", e["fn"]).endswith("recover_measurements")]
     ok7 = False
     for e in div:
         f = Q.closure(eng, eng.block_facts.get((e["frame"], e["block"]), frozenset()))
@@ -265,7 +269,7 @@ def run(ctx):
     ctx.add("C18.R9", AS + "::recover_measurements::{closure}#measurement-is-first-chunk", ok9,
             "the revealed measurement must be exactly the first length-prefixed chunk of the decrypted payload: %s" % det, lb[0]["at"], sample=det)
     # the output measurement is that value of the first split, unmodified
-    new = [e for e in Q.calls(eng, "sta_rs::SingleMeasurement::new") if e["fn"].endswith("recover_measurements")]
+    new = [e for e in Q.calls(eng, "sta_rs::SingleMeasurement::new") if e.get("home_fn", e["fn"]).endswith("recover_measurements")]
     okx = len(new) == 1 and new[0]["argv"][0].op == "field" and new[0]["argv"][0].args[1] == 0 and new[0]["argv"][0].args[0].op == "index"
     ctx.add("C18.R9", AS + "::recover_measurements#output-x-is-that-chunk", okx,
             "Output.x must be built from the measurement chunk unmodified; found %s" % (S(new[0]["argv"][0], 4) if new else None),
